@@ -249,7 +249,7 @@ func (r *Recomposer) recompAny(v any) any {
 	case map[string]any:
 		if cv := tv[r.CreateKey]; cv != nil {
 			tn, _ := cv.(string)
-			if c := r.composers[tn]; c != nil {
+			if c := r.composers[tn]; c != nil && 0 < len(tn) {
 				if c.fun != nil {
 					val, err := c.fun(tv)
 					if err != nil {
@@ -290,7 +290,7 @@ func (r *Recomposer) recompAny(v any) any {
 		if cv := tv[r.CreateKey]; cv != nil {
 			gn, _ := cv.(gen.String)
 			tn := string(gn)
-			if c := r.composers[tn]; c != nil {
+			if c := r.composers[tn]; c != nil && 0 < len(tn) {
 				simple, _ := tv.Simplify().(map[string]any)
 				if c.fun != nil {
 					val, err := c.fun(simple)
